@@ -30,6 +30,27 @@ REG = {
         "CoopLock has threading.Lock semantics; atomicity of a single bytecode under the GIL is trusted; "
         "free-threaded builds are out of scope",
     ),
+    "C07": (
+        "bounded-exhaustive enumeration of the full gate-logic x verdict-pair table on the real run() (engine D) + "
+        "explicit-state BFS to fixpoint over cache histories (engine A)",
+        "All 6 gate logics x 11x11 executor/assessor verdicts (the 7 of the property + 4 unknown spellings, incl. raising "
+        "agents) x cache on/off x 8 prompts are run through the real CoherentFeedForwardLoop.run with stub agents bound "
+        "to the built-in agents by a differential re-run; a reference table written from the statement decides "
+        "'may pass'; token issuer/hash/only-when-assessor-permitted are checked on every cell; run/advance/clear "
+        "histories over two near-identical prompts are explored to fixpoint for cache consistency.",
+        "stub agents stand in for BioAgent (bound by 36 real-agent scenarios); truncated-md5 cache-key collisions are not explorable",
+    ),
+    "C08": (
+        "explicit-state BFS to fixpoint over request-outcome / clock-advance / reset histories under a virtual clock "
+        "(engine A), constraint oracle",
+        "For thresholds 1-4 (thorough 1-5) x breaker on/off x cache on/off every history of {success, assessor BLOCK, "
+        "executor BLOCK, executor FAILURE, executor raises, assessor raises, cached repeat, clock advances below/at/above "
+        "the recovery timeout, manual reset} is explored to fixpoint on the real loop under a substituted clock; the "
+        "oracle is the set of constraints in the statement (never opens early, open after threshold consecutive failures, "
+        "isolation while open, probe after timeout, close/re-open, blocks neutral, disabled => always consulted).",
+        "default AND gate logic only; stub agents spend energy like BioAgent and are bound by 7 real-agent scenarios; "
+        "clock owned through the module-global datetime/time names of loops.py",
+    ),
 }
 
 PENDING_REASON = "check not built yet in this session (design in DESIGN.md section 4); will be claimed once its check runs clean"
